@@ -34,7 +34,9 @@ class PyprojectTomlParser(BaseParser):
 
         if poetry_data:
             poetry_dependencies = [
-                f"{name}{version}"
+                # `name = "*"` means any version; table values (`{version = ..}`)
+                # are kept by name
+                f"{name}{version}" if isinstance(version, str) and version != "*" else name
                 for name, version in poetry_data.get("dependencies", {}).items()
                 if name != "python"
             ]
